@@ -1144,7 +1144,9 @@ mod serde_impls {
         where
             S: Serializer,
         {
-            if self.0.fract().abs() <= f64::EPSILON {
+            // `as i32` saturates: values outside the i32 range are written as floats.
+            let fits_i32 = self.0 >= i32::MIN as f64 && self.0 <= i32::MAX as f64;
+            if self.0.fract().abs() <= f64::EPSILON && fits_i32 {
                 serializer.serialize_i32(self.0 as i32)
             } else {
                 serializer.serialize_f64(self.0)
